@@ -73,6 +73,16 @@ claim("C14", "model_checking",
       "TLA+ spec of the kind laws (Kinds.tla) model-checked by TLC on the recorded unify table; "
       "self-composition spec (SelfComp.tla) over recorded runs of the real kind inference")
 
+claim("C13", "model_checking",
+      "every lookup history within the bounds (TLC-enumerated behaviours of NameGen.tla over an adversarial "
+      "key pool, all namespaces, echo steps) plus simulated longer ones is replayed into the real Python and "
+      "Fortran name managers; TLC validates each recorded history against the abstract name-map contract "
+      "(Legal, Injective under the target's comparison, Stable, NotReserved, StorageClass)",
+      "trusted: the lexical rules written in Names.tla (ASCII identifiers, Fortran 63-character limit, "
+      "case folding); reserved identifiers are collected from the generator source at check time",
+      "trace validation of the real name managers against a TLA+ contract spec (Names.tla); histories are "
+      "TLC-generated behaviours of NameGen.tla")
+
 NOT_YET = "check not built yet (work in progress, see DESIGN.md section 11)"
 NOT_APPLICABLE = {}
 
